@@ -138,7 +138,7 @@ impl Property for C07 {
          with identical materials and products), then exactly one link (or, when two functionaries delegated the step, the inner evidence of one functionary's own copy) is edited and re-signed by its own key: one path renamed, one digest \
          changed, one algorithm changed or added/removed, one entry added or removed - in materials or in products; the dissenter's position \
          in key-id order is varied (first/middle/last). Oracle: Ok only if all counted links of every step with threshold >= 2 have equal \
-         materials and equal products. Non-trivial: the dissent is real (maps differ) and the control without dissent verifies Ok; distinct \
+         materials and equal products. The dissenting world is written over the agreeing one in the same link directory after the agreeing one was verified there once (same paths, one fixed modification time; ChangeDigest/RenamePath keep the file size). Non-trivial: the dissent is real (maps differ) and the control without dissent verifies Ok; distinct \
          by (t, k, edit kind, side, position, layout shape)."
             .into()
     }
@@ -210,7 +210,9 @@ impl Property for C07 {
         }
         let now = now_secs();
         let dir = env.fresh_dir("c07");
-        let (r, j, _) = run_world(&w, &spec.owners, &dir, now);
+        // history on disk: the directory first holds the agreeing links (verified once), then the
+        // dissenting link replaces its file at the same path with the same modification time
+        let (r, j, _) = run_world_after(&spec.world, &w, &spec.owners, &dir, now);
         let _ = std::fs::remove_dir_all(&dir);
         let Some(r) = r else { return o };
         o.class(format!("dissent:{:?}", spec.dissent));
